@@ -1998,6 +1998,98 @@ def r144_probes(ctx, repo):
                    key=f"{rel}::{name}::probe request follows redirects")
 
 
+TRANSIENT_REASONS = ("no connection", "oserror", "service unavailable",
+                     "bad gateway", "gateway timeout", "too many requests",
+                     "request timeout", "internal server error")
+PERMANENT_REASONS = ("forbidden", "not found")
+
+
+def r144_transient(ctx, repo):
+    """a transient failure of the availability probe (no connection, 5xx,
+    429 ...) must not mark an HTTP basin as unavailable for good: only the
+    permanent reasons may set _available_verified = False"""
+    HTTP = "dclab/rtdc_dataset/fmt_http.py"
+    m = repo.func(HTTP, "HTTPBasin.is_available")
+    probe = repo.func("dclab/http_utils.py", "is_url_available")
+    produced = {const_str(n.value) for n in walk(probe)
+                if isinstance(n, ast.Assign) and any(
+                    is_name(t, "reason") for t in n.targets)
+                and const_str(n.value)}
+    if not {"no connection", "oserror"} <= produced or not any(
+            isinstance(n, ast.Assign) and any(is_name(t, "reason")
+                                              for t in n.targets)
+            and "reason" in txt(n.value) and "lower" in txt(n.value)
+            for n in walk(probe)):
+        raise AnalysisError("is_url_available: reason strings not "
+                            "recognised")
+    names = None
+    for n in walk(m):
+        if isinstance(n, ast.Assign) and isinstance(
+                n.targets[0], ast.Tuple) and len(
+                n.targets[0].elts) == 2 and isinstance(
+                n.value, ast.Call) and call_name(
+                n.value) == "is_url_available" and all(
+                isinstance(x, ast.Name) for x in n.targets[0].elts):
+            names = [x.id for x in n.targets[0].elts]
+    if names is None:
+        # the result kept as one object: a tuple (indexed) or a named tuple
+        # (fields folded from the return statement of the probe)
+        for n in walk(m):
+            if isinstance(n, ast.Assign) and len(
+                    n.targets) == 1 and isinstance(
+                    n.targets[0], ast.Name) and isinstance(
+                    n.value, ast.Call) and call_name(
+                    n.value) == "is_url_available":
+                obj = n.targets[0].id
+                for r_ in [x for x in walk(probe)
+                           if isinstance(x, ast.Return)]:
+                    v = r_.value
+                    if isinstance(v, ast.Tuple) and len(v.elts) == 2 \
+                            and is_name(v.elts[1], "reason"):
+                        names = [f"{obj}[0]", f"{obj}[1]"]
+                    elif isinstance(v, ast.Call) and v.keywords:
+                        fr = [k.arg for k in v.keywords
+                              if is_name(k.value, "reason")]
+                        fa = [k.arg for k in v.keywords
+                              if not is_name(k.value, "reason")]
+                        if len(fr) == 1 and len(fa) == 1:
+                            names = [f"{obj}.{fa[0]}", f"{obj}.{fr[0]}"]
+    if names is None:
+        raise AnalysisError("HTTPBasin.is_available: probe call with reason "
+                            "not found")
+    av, rs = names
+    falses = [n for n in walk(m) if isinstance(n, ast.Assign) and any(
+        is_self_attr(t, "_available_verified") for t in n.targets)
+        and isinstance(n.value, ast.Constant) and n.value.value is False]
+    bad, kept = [], []
+    for r in TRANSIENT_REASONS + PERMANENT_REASONS:
+        env = {av: False, rs: r, "REQUESTS_AVAILABLE": True,
+               "self._available_verified": None}
+        hit = False
+        for n in falses:
+            try:
+                if all(bool(Mini(env).ev(t)) == pol
+                       for t, pol in enclosing_conditions(n, m)):
+                    hit = True
+            except Unknown as u:
+                raise AnalysisError("HTTPBasin.is_available: cannot "
+                                    f"evaluate `{u}`")
+        if r in TRANSIENT_REASONS and hit:
+            bad.append(r)
+        if r in PERMANENT_REASONS and hit:
+            kept.append(r)
+    ctx.ob("R14.4", not bad,
+           f"transient probe failures leave the availability undecided "
+           f"(permanent: {kept})" if not bad else
+           f"the transient reason {bad[0]!r} sets _available_verified = "
+           f"False for good ({len(bad)} transient reasons): after a "
+           f"temporary server or network problem the features of the "
+           f"remote basin stay unavailable for the life of the dataset",
+           node=(falses or [m])[0],
+           key=f"{HTTP}::HTTPBasin.is_available::transient failures are "
+           f"re-checked")
+
+
 def single_assign_any(func, name):
     """value of the first plain assignment to `name` (or None)"""
     for n in walk(func):
@@ -2044,7 +2136,7 @@ def run(ctx):
     ctx.rule("R14.4", "degradation: basin access inside try, catch-all, no "
              "re-raise, None unless delivered, copy iteration, available "
              "basins only, availability probed on every call with the semantics "
-             "of the data access", minimum=15)
+             "of the data access; transient failures re-checked", minimum=16)
     sites = Sites(expand_partials(inline_module_helpers(
         repo, CORE, repo.func(CORE, "RTDCBase.basins_retrieve"),
         methods=True, keep=KEEP_CALLS)))
@@ -2055,6 +2147,7 @@ def run(ctx):
     r143(ctx, repo, sites)
     r144(ctx, repo)
     r144_probes(ctx, repo)
+    r144_transient(ctx, repo)
 
 
 def crossval(ctx):
@@ -2359,6 +2452,21 @@ MUTANTS = [
      ("req = ses.get(url, stream=True, timeout=1)",
       "req = ses.get(url, stream=True, timeout=1, allow_redirects=False)"),
      "R14.4"),
+    ("every HTTP error marks the basin unavailable for good "
+     "(seeded C19_17)", HTTPF,
+     ("                    if reason in [\"forbidden\", \"not found\"]:\n"
+      "                        # we cannot access the URL in the near future\n"
+      "                        self._available_verified = False\n"
+      "                    elif avail:\n"
+      "                        self._available_verified = True\n",
+      "                    if avail:\n"
+      "                        self._available_verified = True\n"
+      "                    elif reason not in [\"no connection\", "
+      "\"oserror\"]:\n"
+      "                        self._available_verified = False\n"), "R14.4"),
+    ("any failed probe marks the basin unavailable for good", HTTPF,
+     ("                    if reason in [\"forbidden\", \"not found\"]:\n",
+      "                    if not avail:\n"), "R14.4"),
     ("catch-all handler removed", CORE,
      ("                except BaseException:\n"
       "                    warnings.warn(f\"Could not access {feat} in {self}:\\n\"\n"
